@@ -209,8 +209,11 @@ func handleExceptionSignal(vm *r.VM, blockModule *r.Module, catchBlock []*syntax
 			// do execution (with "this" value = exception value)
 			_, err := evalPureStmtBlock(vm, catchBlockItem.StmtBlock)
 			if err == nil {
-				// get return value from exception block
+				// get return value from exception block (空 when the block has no 输出)
 				rtnValue := vm.GetReturnValue()
+				if rtnValue == nil {
+					rtnValue = value.NewNull()
+				}
 				vm.PopCallFrame()
 
 				return rtnValue, nil
